@@ -464,7 +464,10 @@ func HostilePayload(r rng, p int, own, other string, ownTok string) string {
 	case 0:
 		return fmt.Sprintf(`{"id":%q,"token":"forged-%d"}`, own, r.IntN(1e6))
 	case 1:
-		return fmt.Sprintf(`{"id":%q,"token":%q,"priority":%d}`, other, "tok-"+fmt.Sprint(r.IntN(1e6)), r.IntN(4))
+		// (foreign tokens are free text: short ones, and ones that happen to contain words an
+		// error classifier might look for)
+		tok := r.pickS("tok-"+fmt.Sprint(r.IntN(1e6)), "tok-"+fmt.Sprint(r.IntN(1e6)), "t", "ab-1", "lease-temporary-7f3a", "timeout", "net-unavailable", "connection reset by peer", "deadline exceeded", "key not found", "revision mismatch", "invalid", "permission denied")
+		return fmt.Sprintf(`{"id":%q,"token":%q,"priority":%d}`, other, tok, r.IntN(4))
 	case 2:
 		return fmt.Sprintf(`{"id":%q,"token":%q}`, other, ownTok)
 	case 3:
